@@ -203,3 +203,29 @@ fn(T + ".run", params={}, model_opts=VIEWS,
         "and implies(self.stream.is_ssl, call_args('ProtocolWrapper.__init__')[10] == self.stream.alpn))", "C13,C16"),
    ],
    props=("C04", "C07", "C16", "C14", "C13"))
+
+# ------------------------------------------------------------------------------------ constructors
+# Base case of what the other units assume about a server object: a lock and a keep-alive timer
+# slot of its own (C08 "blocks neither other streams nor other connections", C07 one timer per
+# connection), no protocol yet, and the caller's application / configuration / worker context /
+# lifespan state / transport wired through unchanged (C14: the state every connection copies).
+fn(A + ".__init__", inline=True, params={"app": "opaque", "loop": "opaque", "config": "obj hypercorn.config:Config", "context": "obj hypercorn.typing:WorkerContext",
+                            "state": "dict{}", "reader": "obj asyncio:StreamReader", "writer": "obj asyncio:StreamWriter"},
+   ensures=[
+       ("C16.init.wiring", "same(self.app, app) and same(self.config, config) and same(self.context, context) and same(self.state, state)", "C16,C14"),
+       ("C16.init.transport", "same(self.reader, reader) and same(self.writer, writer) and same(self.loop, loop)", "C16"),
+       ("C08.init.own-lock", "trace_any('created', 'c', same(c, self.send_lock))", "C08,C16"),
+       ("C07.init.no-timer", "self.idle_task._handle is None and self.idle_task.g_live == 0", "C07,C16"),
+       ("C16.init.no-protocol", "not has(self, 'protocol')", "C16"),
+   ],
+   props=("C16", "C07", "C08", "C14"))
+fn(T + ".__init__", inline=True, params={"app": "opaque", "config": "obj hypercorn.config:Config", "context": "obj hypercorn.typing:WorkerContext",
+                            "state": "dict{}", "stream": "obj trio:Stream"},
+   ensures=[
+       ("C16.init.wiring", "same(self.app, app) and same(self.config, config) and same(self.context, context) and same(self.state, state)", "C16,C14"),
+       ("C16.init.transport", "same(self.stream, stream)", "C16"),
+       ("C08.init.own-lock", "trace_any('created', 'c', same(c, self.send_lock))", "C08,C16"),
+       ("C07.init.no-timer", "self.idle_task._handle is None and self.idle_task.g_live == 0", "C07,C16"),
+       ("C16.init.no-protocol", "not has(self, 'protocol')", "C16"),
+   ],
+   props=("C16", "C07", "C08", "C14"))
